@@ -112,6 +112,16 @@ def step : List String → String
         | none => "bad-op"
       | _ => "bad-op"
     | _, _, _, _ => "bad-op"
+  | ["reload", bitsA, hfA, twA, bitsB, hfB, twB, data] =>
+    match filter? bitsA hfA twA "-", filter? bitsB hfB twB "-", hexBytes? data with
+    | some a, some b, some d =>
+      let f := reload a b
+      match «matches» mm f d, add mm f d with
+      | some before, some g => match «matches» mm g d with
+        | some after => boolStr before ++ " " ++ toHex g.bits ++ " " ++ boolStr after
+        | none => "panic"
+      | _, _ => "panic"
+    | _, _, _ => "bad-op"
   | ["ser", bits, hf, tw, flags, types] =>
     match filter? bits hf tw types, nat? flags with
     | some f, some fl => match serializeFilterLoad f (UInt8.ofNat fl) with
